@@ -281,6 +281,9 @@ static void run_config(long idx, int workers, int clients, int nreq, int shutdow
 
 int main(int argc, char** argv) {
     g_opts = parse_opts(argc, argv);
+#if LV_INTERPOSE
+    lv::ip().pollDelayMaxMs = (int)g_opts.num("poll-delay", 0);   // see live.h: loop threads come back to their pollers late
+#endif
     install_handlers(g_opts.get("prop", "c09") == "storm");   // (the storm stage runs without a sanitizer: a crash must name the round)
     // warm-up: runtime helper threads (sanitizer background thread, resolver) exist before the baseline is taken
     { std::thread t([] {}); t.join(); lv::Conn c; c.open_to(1); lv::msleep(50); }
@@ -350,7 +353,10 @@ int main(int argc, char** argv) {
         }
         g_distinct.flush();
         Json s; s.str("t", "sum").num("evaluations", g_evals);
-        Json c; for (auto& kv : g_counts) c.num(kv.first, kv.second);
+    #if LV_INTERPOSE
+    if (lv::ip().pollDelays.load()) g_counts["poll_delays_injected"] = lv::ip().pollDelays.load();
+#endif
+    Json c; for (auto& kv : g_counts) c.num(kv.first, kv.second);
         s.raw("counts", c.done());
         emit(s.done());
         _exit(0);
@@ -368,6 +374,9 @@ int main(int argc, char** argv) {
     }
     g_distinct.flush();
     Json s; s.str("t", "sum").num("evaluations", g_evals);
+#if LV_INTERPOSE
+    if (lv::ip().pollDelays.load()) g_counts["poll_delays_injected"] = lv::ip().pollDelays.load();
+#endif
     Json c; for (auto& kv : g_counts) c.num(kv.first, kv.second);
     s.raw("counts", c.done());
     emit(s.done());
